@@ -32,13 +32,16 @@ def _exp(E, x):
     return math.exp(x)
 
 
-def _decay_case(nprod, rest_kind, tiny=False, reuse=False):
+def _decay_case(nprod, rest_kind, tiny=False, reuse=False, same_half=False):
     def h(E):
         from periodictable import activation
         LN2 = activation.LN2
         rows, A0, lam = [], [], []
         for i in range(nprod):
-            T = E.real('Thalf%d' % i, lo=0, lo_open=True, hi=1e9, srange=(0.5, 50) if not tiny else (1e4, 1e6))
+            if same_half and i > 0:
+                T = rows[0].Thalf_hrs        # two reactions leading to the same product: identical half-lives
+            else:
+                T = E.real('Thalf%d' % i, lo=0, lo_open=True, hi=1e9, srange=(0.5, 50) if not tiny else (1e4, 1e6))
             rows.append(activation.ActivationResult(Thalf_hrs=T, isotope='X-%d' % i, daughter='Y-%d' % i, reaction='act'))
             A0.append(E.real('A0_%d' % i, lo=0, lo_open=True, hi=1e9,
                              srange=(0.1, 100) if not tiny else ((2e-8, 2e-7) if i < 2 else (3e-11, 9.5e-11))))
@@ -175,8 +178,8 @@ def _through_calculation_case(case, tier, seed):
     import itertools
     from periodictable import activation
     res = dict(paths=1, claims=0, discharged=0, queries=0, distinct=0, violations=[], inconclusive=[], samples=[], solver_s=0.0, complete=True)
-    env = activation.ActivationEnvironment(fluence=1e13, Cd_ratio=0., fast_ratio=0.)
-    for ftxt, mass in (('Co', 1.0), ('Au', 0.5), ('Co30Fe70', 2.0)):
+    env = activation.ActivationEnvironment(fluence=1e13, Cd_ratio=0., fast_ratio=10.)
+    for ftxt, mass in (('Co', 1.0), ('Au', 0.5), ('Co30Fe70', 2.0), ('NaAlSi3O8', 1.0), ('SrTiO3', 1.0)):
         ref = None
         for rests in ([0], [0, 1, 24, 360], [24, 0], [360, 24, 1, 0], [1, 0, 24], (0, 5)):
             s = activation.Sample(ftxt, mass)
@@ -293,6 +296,8 @@ def cases(tier):
     out.append(Case('decay_time_tiny_activity[products=3|rests=zero_only]', _decay_case(3, 'zero_only', tiny=True), max_paths=mp, timeout_ms=to,
                     nsamples=40 if not th else 200, conc_rel=1e-6))
     out.append(Case('decay_time_reused_sample[products=2|rests=zero_first]', _decay_case(2, 'zero_first', reuse=True), max_paths=mp, timeout_ms=to,
+                    nsamples=4, conc_rel=1e-6))
+    out.append(Case('decay_time_same_halflife[products=2|rests=zero_first]', _decay_case(2, 'zero_first', same_half=True), max_paths=mp, timeout_ms=to,
                     nsamples=4, conc_rel=1e-6))
     out.append(Case('decay_time_after_real_calculation', None, custom=_through_calculation_case))
     out.append(Case('no_activation', _degenerate_case, max_paths=4))
